@@ -91,14 +91,14 @@ def hook(site, ident):
             continue
         if w == 'parent' and r.simpid != 0:
             continue
-        _act(r, i, e)
+        _act(r, i, e, occ)
 
 
-def _act(r, i, e):
+def _act(r, i, e, occ):
     a = e['a']
     if a == 'write':
         st = e['stream']
-        text = e['text']
+        text = e['text'].replace('%o', str(occ))
         r.emit([r.simpid, 'fault', 'write:' + st, i, 0])
         if st == 'stdout':
             sys.stdout.write(text)
@@ -240,6 +240,14 @@ def _make_class(modname, c, layers):
         def tearDown(self):
             hook('test.tearDown', self.id())
         ns['tearDown'] = tearDown
+    def run(self, result=None):
+        tid = self.id()
+        hook('test.run', tid)
+        try:
+            return unittest.TestCase.run(self, result)
+        finally:
+            hook('test.ran', tid)
+    ns['run'] = run
     if c.get('layer') is not None:
         if c.get('layer_as_str'):
             ns['layer'] = LAYERMOD + '.' + c['layer']
